@@ -46,6 +46,19 @@ def right_nested_float_sum(a) -> bool:
 WORKER = RealWorker()
 
 
+def _float_literals(a):
+    from tensora.expression import ast as s
+
+    def walk(e):
+        if isinstance(e, s.Float):
+            return [e.value]
+        if isinstance(e, (s.Add, s.Subtract, s.Multiply)):
+            return walk(e.left) + walk(e.right)
+        return []
+
+    return walk(a.expression)
+
+
 def run(chk: Check, drv: Driver):
     chk.cov["rule"] = (
         "sampled problems (curated + random, incl. right-nested sums/products) x formats x inputs with general finite doubles "
@@ -65,9 +78,9 @@ def run(chk: Check, drv: Driver):
         prepared.append(pr)
     if quick:
         # keep the F10-shaped ones and a sample of the rest
-        special = [p for p in prepared if right_nested_float_sum(p.assignment)]
+        special = [p for p in prepared if right_nested_float_sum(p.assignment) or any(len(repr(v).replace(".", "").lstrip("0")) >= 16 for v in _float_literals(p.assignment))]
         rest = [p for p in prepared if p not in special]
-        prepared = special[:8] + rng.sample(rest, min(len(rest), 30))
+        prepared = special[:12] + rng.sample(rest, min(len(rest), 30))
     # certificates
     certs = drv.batch(["CERT hoist " + sx(export(pr.module)) for pr in prepared])
     for pr, c in zip(prepared, certs):
